@@ -1474,8 +1474,9 @@ func (g *gen) ret() {
 	fs := g.inFunc
 	rs := make([]string, len(fs.results))
 	for i, t := range fs.results {
-		// keep builtins out of multi-value returns (F23)
-		if len(fs.results) > 1 {
+		// since fix b3c279d (F23) any expression — builtin and other calls included — may be an operand of
+		// a multi-value return
+		if len(fs.results) > 1 && g.off("multi-return-expr") {
 			if v, ok := g.pickVar(t, false); ok {
 				rs[i] = v.name
 			} else {
@@ -1484,6 +1485,9 @@ func (g *gen) ret() {
 		} else {
 			rs[i] = g.expr(t, 2)
 		}
+	}
+	if len(fs.results) > 1 {
+		g.f("multi-return-expr")
 	}
 	g.line("return %s", strings.Join(rs, ", "))
 }
